@@ -112,7 +112,9 @@ class FileProxy:
         self._closed = False
 
     def write(self, data):
-        gate('write')
+        if not getattr(self, '_write_started', False):       # one model boundary per file, however many chunks are written
+            self._write_started = True
+            gate('write')
         plan = CTX.plan
         if isinstance(plan, (list, tuple)) and plan[0] == 'write':
             self._fh.write(data[:plan[1]])
